@@ -7,6 +7,8 @@ trace: it records the owner of every temp name, rejects the re-use of a temp nam
 access to another process's temp name ("temp names of different processes are distinct").
   every intermediate state of every interleaving is Good; every read of a final name sees a
   complete file                                                         C09_interleaving_good
+  the same from per-process acceptance: any interleaving of traces that are
+  accepted process by process, with pairwise distinct created names     C09_interleaving_of_accepted
   nothing a process published is taken away again (no rmrf)             C09_published_stays
   a later build re-uses the cache without recompiling                   C09_reuse_without_recompile
   whatever the other processes do in between, a build returns normally
@@ -43,6 +45,17 @@ theorem C09_interleaving_good (S : Spec) (hS : S.Coherent) (fs0 : FS) (t : Trace
       exact (trace_preserves hS fs0 t1 fs0 AS.empty st1 (Inv_empty S fs0) hG h1
         (fun e he => hf e (List.mem_append_left _ he))).2
   exact ⟨h1, fun t1 t2 e p ht _ hp f hfp => h1 t1 (e :: t2) ht p f hp hfp⟩
+
+/-- The statement in per-process form: `t` is ANY interleaving of per-process traces (`t.filter pid = i`), each
+    of which obeys the discipline on its own, and the names created by different processes are pairwise
+    distinct.  Then the interleaved trace obeys the global discipline and every intermediate state is Good. -/
+theorem C09_interleaving_of_accepted (S : Spec) (hS : S.Coherent) (fs0 : FS) (t : Trace) (hG : Good S fs0)
+    (hloc : ∀ i, accepts S (t.filter (fun x => x.pid == i)) = true)
+    (hdis : CreatedDisjoint AS.empty t) (hf : FreshOuts fs0 t) :
+    accepts S t = true ∧ ∀ t1 t2, t = t1 ++ t2 → Good S (apply S t1 fs0) := by
+  have ha : accepts S t = true :=
+    accepts_interleave t AS.empty (fun i => by rw [proj_empty]; exact hloc i) hdis
+  exact ⟨ha, (C09_interleaving_good S hS fs0 t hG ha hf).1⟩
 
 /-- one accepted step other than `rmrf` never removes a final-named file -/
 theorem step_keeps_finals (S : Spec) (st st' : AS) (e : Ev) (fs : FS) (ha : acceptStep S st e = some st')
@@ -204,6 +217,8 @@ def exTrace : Trace :=
 
 example : accepts exSpec exTrace = true := by decide
 example : noRmrf exTrace = true := by decide
+example : accepts exSpec (exTrace.filter (fun x => x.pid == 1)) = true := by decide
+example : accepts exSpec (exTrace.filter (fun x => x.pid == 2)) = true := by decide
 /-- the same steps with process 2 writing straight to the final name are rejected -/
 example : accepts exSpec [⟨1, .creat ta, true⟩, ⟨2, .creat fin, true⟩] = false := by decide
 /-- and so is touching the other process's temp name -/
